@@ -27,6 +27,9 @@ type Monitor struct {
 	leaders   map[uint64]string    // term -> "node/incarnation"
 	grants    map[[2]uint64]uint64 // (term, voter) -> candidate (wire grants and stored votes)
 	wireGrant map[[2]uint64]bool   // (term, voter) -> the grant was put on the wire
+	// (term, voter, candidate) -> last entry ids (term, index) of the voter's own log each time it
+	// generated a grant for that candidate in that term
+	voterLogAtGrant map[[3]uint64][][2]uint64
 
 	// per node observation state
 	obs map[uint64]*nodeObs
@@ -275,6 +278,32 @@ func votersOf(n *Node) [2][]uint64 {
 func (m *Monitor) onBecomeLeader(n *Node, st raft.BasicStatus, base uint64, ents []*pb.Entry) {
 	t := st.GetTerm()
 	vs := votersOf(n)
+	// C02: every vote was granted "only to a candidate whose last log entry is at least as up to date
+	// as its own" — compared with the log the candidate actually holds when it takes office (its log
+	// without the entries of its own new term).
+	cl, ct := base, uint64(0)
+	if tt, err := n.RN.VerifTerm(base); err == nil {
+		ct = tt
+	}
+	for _, e := range ents {
+		if e.GetTerm() < t {
+			cl, ct = e.GetIndex(), e.GetTerm()
+		}
+	}
+	for k := 0; k < 2; k++ {
+		for _, v := range vs[k] {
+			if v == n.ID || m.grants[[2]uint64{t, v}] != n.ID || !m.wireGrant[[2]uint64{t, v}] {
+				continue
+			}
+			for _, vl := range m.voterLogAtGrant[[3]uint64{t, v, n.ID}] {
+				if vl[0] > ct || (vl[0] == ct && vl[1] > cl) {
+					m.c.violate("C02", "leader elected on a vote granted for a log it does not hold",
+						"node %d leads term %d with last entry %d/%d, but voter %d (last entry %d/%d) granted its vote to a request that advertised a more up-to-date log", n.ID, t, ct, cl, v, vl[0], vl[1])
+					return
+				}
+			}
+		}
+	}
 	for k := 0; k < 2; k++ {
 		if len(vs[k]) == 0 {
 			continue
@@ -655,6 +684,7 @@ type stepCtx struct {
 	lastT  uint64
 	has    bool // log holds (snapshot index, term)
 	nmsgs  int
+	nmaa   int
 	prs    map[uint64]raft.VerifInflight
 	hadUCC bool
 }
@@ -672,6 +702,7 @@ func (m *Monitor) snapshotCtx(n *Node) {
 	}
 	vi := n.RN.VerifInfo()
 	cur.nmsgs = len(vi.PendingMsgs)
+	cur.nmaa = len(vi.PendingAfterApp)
 	cur.prs = vi.Inflights
 	cur.hadUCC = m.hasUnappliedCommittedCC(n, cur.st, base, ents)
 }
@@ -732,6 +763,18 @@ func (m *Monitor) afterStep(n *Node, msg *pb.Message, err error) {
 		m.checkInLease(n, msg, st)
 	case pb.MsgVote:
 		m.checkInLease(n, msg, st)
+		// a grant generated by this step (first or repeated): remember what the voter's own log was
+		if vi := n.RN.VerifInfo(); len(vi.PendingAfterApp) > cur.nmaa {
+			for _, r := range vi.PendingAfterApp[cur.nmaa:] {
+				if r.GetType() == pb.MsgVoteResp && !r.GetReject() && r.GetTo() == msg.GetFrom() {
+					if m.voterLogAtGrant == nil {
+						m.voterLogAtGrant = map[[3]uint64][][2]uint64{}
+					}
+					k := [3]uint64{r.GetTerm(), n.ID, msg.GetFrom()}
+					m.voterLogAtGrant[k] = append(m.voterLogAtGrant[k], [2]uint64{cur.lastT, cur.last})
+				}
+			}
+		}
 		// C02 (c): granted only to an up-to-date candidate
 		if st.GetVote() == msg.GetFrom() && (cur.st.GetVote() != msg.GetFrom() || cur.st.GetTerm() != st.GetTerm()) {
 			ok := msg.GetLogTerm() > cur.lastT || (msg.GetLogTerm() == cur.lastT && msg.GetIndex() >= cur.last)
